@@ -112,6 +112,11 @@ pub fn field_zoo(f: &Fld) -> Vec<Tagged> {
     for v in decimal_structured(p) {
         push(v, "decimal-structure");
     }
+    for v in divstep_worst_inputs(p, 300, 24) {
+        // also the Montgomery-domain partner: the backends hand the canonical value to the divstep loop,
+        // a variant working on the internal form would see v*R
+        push(v.clone(), "divstep-worst-case");
+    }
     {
         // values whose limbs are symmetric under a fold, as canonical integers and as Montgomery forms
         let n64 = (f.bits + 63) / 64;
@@ -777,4 +782,97 @@ pub fn fold_collision_aliases(p: &B, nbytes: usize, w: usize, rng: &mut impl Rng
         }
     }
     found
+}
+
+/// number of Bernstein-Yang divsteps (delta = 1, f = p, g = x) until g = 0
+pub fn divsteps(p: &B, x: &B) -> usize {
+    use num_bigint::BigInt;
+    use num_traits::{One, Zero};
+    let (mut d, mut f, mut g) = (1i64, BigInt::from(p.clone()), BigInt::from(x.clone()));
+    let mut n = 0;
+    while !g.is_zero() && n < 100_000 {
+        let odd = g.bit(0);
+        if d > 0 && odd {
+            let ng: BigInt = (&g - &f) >> 1usize;
+            f = g;
+            g = ng;
+            d = 1 - d;
+        } else {
+            if odd {
+                g = (&g + &f) >> 1usize;
+            } else {
+                g = g >> 1;
+            }
+            d = 1 + d;
+        }
+        n += 1;
+    }
+    let _ = BigInt::one();
+    n
+}
+
+/// Field elements on which the divstep-based inversion of the 32-bit backend needs unusually many
+/// iterations (uniform inputs need about 2.07 * bits steps with a tiny spread; the proven bound is
+/// (49 bits + 57)/17 = 2.9 * bits). Found by a beam search over the bits of x, least significant first:
+/// after k steps (f_k, g_k) = T_k (p, x) / 2^k for an integer matrix T_k that depends on the low k bits
+/// only; candidates are ranked by the magnitude f_k and g_k will have given the bits chosen so far.
+/// An iteration count "tightened" below the proven bound is only wrong on inputs like these.
+pub fn divstep_worst_inputs(p: &B, width: usize, keep: usize) -> Vec<B> {
+    use num_bigint::BigInt;
+    use num_traits::Signed;
+    use std::sync::{Mutex, OnceLock};
+    static CACHE: OnceLock<Mutex<std::collections::HashMap<(Vec<u8>, usize, usize), Vec<B>>>> = OnceLock::new();
+    let key = (p.to_bytes_le(), width, keep);
+    if let Some(v) = CACHE.get_or_init(Default::default).lock().unwrap().get(&key) {
+        return v.clone();
+    }
+    let nbits = p.bits() as usize;
+    let pq = BigInt::from(p.clone());
+    // (delta, a, b, c, e, x_low): f_k = (a p + b x)/2^k, g_k = (c p + e x)/2^k
+    type St = (i64, BigInt, BigInt, BigInt, BigInt, BigInt);
+    let one = BigInt::from(1);
+    let zero = BigInt::from(0);
+    let mut cands: Vec<St> = vec![(1, one.clone(), zero.clone(), zero.clone(), one.clone(), zero.clone())];
+    for k in 0..nbits {
+        let mut new: Vec<(i64, St)> = Vec::with_capacity(cands.len() * 2);
+        let kk = k + 1;
+        let rem = nbits.saturating_sub(kk);
+        for (d, a, bq, c, e, xl) in &cands {
+            for bit in 0..2u8 {
+                let x = if bit == 1 { xl + (&one << k) } else { xl.clone() };
+                let gk = ((c * &pq + e * &x) >> k).bit(0);
+                let (nd, na, nb, nc, ne) = if *d > 0 && gk {
+                    (1 - d, c * 2, e * 2, c - a, e - bq)
+                } else if gk {
+                    (1 + d, a * 2, bq * 2, c + a, e + bq)
+                } else {
+                    (1 + d, a * 2, bq * 2, c.clone(), e.clone())
+                };
+                let mag = |u: &BigInt, v: &BigInt| -> i64 {
+                    let val: BigInt = u * &pq + v * &x;
+                    let lead: BigInt = val.abs() >> kk;
+                    let spread: BigInt = (v.abs() << rem) >> 1usize;
+                    std::cmp::max(lead.bits(), spread.bits()) as i64
+                };
+                let fm = mag(&na, &nb);
+                let gm = mag(&nc, &ne);
+                let score = (std::cmp::min(fm, gm + 2) * 4 + std::cmp::max(fm, gm)) * 100 - nd.abs();
+                new.push((score, (nd, na, nb, nc, ne, x)));
+            }
+        }
+        new.sort_by(|x, y| y.0.cmp(&x.0));
+        new.truncate(width);
+        cands = new.into_iter().map(|x| x.1).collect();
+    }
+    let mut scored: Vec<(usize, B)> = cands
+        .into_iter()
+        .filter_map(|s| s.5.to_biguint())
+        .filter(|x| x > &b(0) && x < p)
+        .map(|x| (divsteps(p, &x), x))
+        .collect();
+    scored.sort_by(|x, y| y.0.cmp(&x.0));
+    scored.dedup_by(|x, y| x.1 == y.1);
+    let out: Vec<B> = scored.into_iter().take(keep).map(|x| x.1).collect();
+    CACHE.get().unwrap().lock().unwrap().insert(key, out.clone());
+    out
 }
